@@ -19,6 +19,25 @@ func (fr *frame) loopVarValue(li *loopInfo, name string, st *State, phiVal func(
 			return phiVal(phi), true
 		}
 	}
+	// an address-taken local: its cell is found through any debug reference to its address
+	for _, b := range fr.fn.Blocks {
+		for _, ins := range b.Instrs {
+			if dr, ok := ins.(*ssa.DebugRef); ok && dr.IsAddr {
+				if obj := dr.Object(); obj != nil && obj.Name() == name {
+					if al, ok := dr.X.(*ssa.Alloc); ok {
+						switch a := fr.operand(al, st).(type) {
+						case *LV:
+							return fr.c.load(st, a), true
+						case *StaticCell:
+							return a.val, true
+						case *Term:
+							return a, true
+						}
+					}
+				}
+			}
+		}
+	}
 	// otherwise: a value defined outside the loop, found through debug references
 	var best ssa.Value
 	var bestAddr bool
